@@ -34,10 +34,13 @@ def load_spec() -> Dict[str, Any]:
 
 
 def clock_term_ok(v: T.Term) -> bool:
-    return v in (
-        ("app", "int", ("app", "round", ("app", "time.time"))),
-        ("app", "int", ("app", "time.time")),
-    )
+    """LE32 source is int(round(time.time())) / int(time.time()) of ONE clock occurrence."""
+    if not (isinstance(v, tuple) and v[:2] == ("app", "int") and len(v) == 3):
+        return False
+    x = v[2]
+    if isinstance(x, tuple) and x[:2] == ("app", "round") and len(x) == 3:
+        x = x[2]
+    return isinstance(x, tuple) and len(x) == 3 and x[:2] == ("app", "time.time") and x[2][0] == "occ"
 
 
 def check_role(role: str, sl: T.Term, op: str, o: Outcome, ctx: Dict[str, Any]) -> Tuple[Optional[bool], str]:
